@@ -537,6 +537,87 @@ def c06_replay(prop, path):
 PROPS["C06"] = {"run": c06_run, "replay": c06_replay}
 
 
+def c42_run(prop, tier, seed):
+    import time
+    wd = vlib.workdir(prop)
+    known = vlib.load_known()
+    r1 = vlib.run_tlc("StdTimer", "MC_StdTimer.cfg", wd, workers=6, timeout=1200, capture_edges=False)
+    mc = [{"module": "StdTimer", "cfg": "MC_StdTimer.cfg", "distinct_states": r1["stats"]["distinct"], "generated": r1["stats"]["generated"],
+           "action_coverage": r1["stats"]["coverage"], "cmd": r1["stats"]["cmd"]}]
+    if tier == "thorough":
+        try:
+            vlib.run_tlc("StdTimer", "MC_StdTimer_strong.cfg", wd, workers=4, timeout=600, capture_edges=False)
+        except ToolError:
+            mc.append({"module": "StdTimer", "cfg": "MC_StdTimer_strong.cfg", "self_test": "NoWakeAfterDrop violated as required"})
+        else:
+            raise ToolError("self test: MC_StdTimer_strong.cfg should violate NoWakeAfterDrop")
+    runs = 2 if tier == "quick" else 6
+    threads, sleeps = (8, 25) if tier == "quick" else (16, 60)
+    norm_path = os.path.join(wd, "trace.norm.ndjson")
+    t0 = time.time()
+    with open(norm_path, "w") as g:
+        for k in range(runs):
+            outp = os.path.join(wd, f"timer.{k}.ndjson")
+            vlib.run_vh(["timer", "--out", outp, "--threads", str(threads), "--sleeps", str(sleeps), "--seed", str(seed * 10 + k)], timeout=1800)
+            for line in open(outp):
+                e = json.loads(line)
+                for f in ("t", "t0", "dur", "timeout", "last_wake"):
+                    if f in e:
+                        e[f] = int(min(2_000_000_000, e[f]))
+                g.write(json.dumps(e, separators=(",", ":")) + "\n")
+    run_wall = time.time() - t0
+    res = simcheck.validate("Trace_Timer", norm_path, wd, "v")
+    violations, known_hits = [], []
+    for v in res["violations"]:
+        sig = f"Trace_Timer:{v['rule']}"
+        kf = next((x for x in known["findings"] if sig.startswith(x["signature"])), None)
+        if kf:
+            known_hits.append({"sig": sig, "what": f"{kf['what']} [{sig}]"})
+            continue
+        if any(x["sig"] == sig for x in violations):
+            continue
+        lines = open(norm_path).read().splitlines()
+        ev = json.loads(lines[v["line"] - 1])
+        related = [json.loads(x) for x in lines if f'"id":{ev.get("id")},' in x or x.endswith(f'"id":{ev.get("id")}' + "}")]
+        path = vlib.save_replay(prop, re.sub(r"[^A-Za-z0-9_.-]", "_", sig)[:140],
+                                {"property": prop, "spec": "Trace_Timer", "rule": v["rule"], "signature": sig, "event": ev, "events_of_the_sleep": related,
+                                 "threads": threads, "sleeps": sleeps, "seed": seed})
+        violations.append({"sig": sig, "what": f"{v['rule']} at event {json.dumps(ev)[:300]}", "replay": path})
+    c = res["counters"]
+    need = {"sleeps": 100, "ready": 40, "droppedjudged": 20, "blockon": 20, "blocktimeoutok": 5, "blocktimeouttimeout": 5}
+    missing = [k for k, m in need.items() if c.get(k, 0) < m]
+    if missing:
+        raise ToolError(f"vacuity guard: counters {missing} too low: {c}")
+    coverage = {"states": r1["stats"]["distinct"] + res["states"], "transitions": r1["stats"]["generated"] + res["lines"],
+                "model_checking_runs": mc, "traces_validated_against_impl": runs, "evaluations": c.get("sleeps", 0) + c.get("blockon", 0) + c.get("blocktimeoutok", 0) + c.get("blocktimeouttimeout", 0),
+                "distinct_nontrivial": c.get("ready", 0) + c.get("droppedjudged", 0),
+                "rule": "StdTimer.tla model-checked exhaustively (2 sleeps, durations 0..2, 4 ticks, spurious polls); the real TimerDriver / block_on / block_timeout run under "
+                        f"{threads} concurrent threads x {sleeps} operations x {runs} runs with wall-clock timings, validated event by event by TLC against Trace_Timer.tla",
+                "rule_counters": c, "max_lateness_us": c.get("maxlate"), "trace_events": res["lines"], "run_wall_s": round(run_wall, 1),
+                "tlc_wall_s": res["wall_s"], "checker_cmd": res["cmd"], "exhaustive": False}
+    return {"level": "model_checking", "coverage": coverage, "violations": violations, "known": known_hits,
+            "assumptions": ["real time: timings come from one monotonic clock (Instant); liveness rules use a 5 s slack, the dropped-sleep rule only judges sleeps "
+                            "dropped at least 300 ms before their deadline (StdTimer!NoWakeAfterDrop does not hold without that margin)",
+                            "TLC and the CommunityModules are trusted", "the executor (spawn / join) is exercised only through the repository's own use of it in the other checks"]}
+
+
+def c42_replay(prop, path):
+    rep = json.load(open(path))
+    wd = vlib.workdir(prop + ".replay")
+    # real-time behaviour cannot be replayed exactly: run the same stress again and report whether the rule fires again
+    outp = os.path.join(wd, "timer.ndjson")
+    vlib.run_vh(["timer", "--out", outp, "--threads", str(rep.get("threads", 8)), "--sleeps", str(rep.get("sleeps", 25)), "--seed", str(rep.get("seed", 1) * 10)], timeout=1800)
+    res = simcheck.validate("Trace_Timer", outp, wd, "v")
+    print(json.dumps(res["violations"])[:2000])
+    if any(v["rule"] == rep["rule"] for v in res["violations"]):
+        print(f"VIOLATION property={prop} replay={path}")
+        return 1
+    return 0
+
+
+PROPS["C42"] = {"run": c42_run, "replay": c42_replay}
+
+
 
 # ------------------------------------------------------------------------------------------
 # C33: listener dispatch, StatusWait/MC_Dispatch enumerated by TLC, each configuration raised in the simulation
